@@ -2,7 +2,7 @@
 # full confirmation of every seeded change (tools/mutant.py --all), P at a time; results in seeded/*/result.json
 cd "$(dirname "$0")/.."
 P=${P:-4}
-ls -d ${@:-seeded/*/} | sed 's,/$,,' | xargs -P $P -I{} sh -c 'python3 tools/mutant.py {} --all > /dev/null 2>&1; python3 - {} <<PY
+ls -d ${@:-seeded/*/} | sed 's,/$,,' | xargs -P $P -I{} sh -c 'python3 tools/mutant.py {} ${MUTANT_ARGS:---all} > /dev/null 2>&1; python3 - {} <<PY
 import json,sys
 import os
 root=os.environ.get("MUTANT_RESULT_ROOT")
